@@ -156,7 +156,7 @@ def run(world, rep, tier, only=None):
     def inode_loop_guard_ok(a):
         names = _calls_in(a)
         fl = T.field_names(a)
-        return bool(names & {"ext2fs_file_acl_block"}) or "i_links_count" in fl or T.path(a) in ("ino", "retval") or \
+        return bool(names & {"ext2fs_file_acl_block"}) or bool(fl & {"i_links_count", "s_last_orphan", "i_dtime"}) or T.path(a) in ("ino", "retval") or \
             "retval" in T.vars_in(a) or "ino" in T.vars_in(a) and not fl or isinstance(T.strip(a), dict) and T.const(a) is not None
     for n in acl:
         extra = [(t, a) for (t, a) in _silent(wr, prog, n) if not inode_loop_guard_ok(a)]
@@ -164,6 +164,16 @@ def run(world, rep, tier, only=None):
                "restricted only by i_links_count / a non-zero i_file_acl: extra %s" %
                [("" if t else "!") + T.pp(a)[:50] for t, a in extra])
     its = calls_to(wr, "ext2fs_block_iterate3", "ext2fs_block_iterate2", "ext2fs_block_iterate")
+    # an inode without links is not dead while it is on the orphan list (e2fsck releases its blocks through its mapping
+    # blocks): where the link count decides whether an inode is looked at, the orphan list (s_last_orphan / the i_dtime
+    # link of the list) is part of the same decision
+    for i, n in enumerate(acl + its):
+        fl_ = set()
+        for t, a in _silent(wr, prog, n):
+            fl_ |= T.field_names(a)
+        rep.ob("C19.b", site(wr, "unlinked inodes are passed over only off the orphan list#%d" % i),
+               "i_links_count" not in fl_ or bool(fl_ & {"s_last_orphan", "i_dtime"}),
+               "conditions on the way to `%s` read %s" % (n.text()[:30], sorted(fl_ & {"i_links_count", "s_last_orphan", "i_dtime"})))
     def cb(c, name):
         return any(isinstance(T.strip(a), dict) and T.strip(a).get("k") == "fn" and T.strip(a).get("n") == name
                    for a in c.ev["x"].get("a", []))
@@ -356,6 +366,17 @@ def run(world, rep, tier, only=None):
                "flags |= E2IMAGE_CHECK_ZERO_FLAG under access(image_fn, F_OK) != 0: guards %s" %
                [("" if t else "!") + T.pp(a)[:40] for t, a in lits][-3:])
 
+    # the qcow2-to-raw reader writes only the clusters the qcow2 image holds (all-zero metadata blocks have no entry):
+    # it, too, needs an empty output.  Where the output is opened, O_TRUNC is added for this mode as well - one of
+    # the alternatives leading to the store tests E2IMAGE_IS_QCOW2_FLAG.
+    conv = calls_to(mn, "qcow2_write_raw_image")
+    tr = [n for n in mn.events("S") if "O_TRUNC" in T.macros(n.ev.get("rhs") or {})]
+    rep.floor("C19.g conversion call / O_TRUNC store in main", min(len(conv), len(tr)), 1)
+    alt = [T.pp(a)[:40] for n in tr for t, a in control_lits(mn, n) + restrict_lits(mn, n)
+           if t is not False and "E2IMAGE_IS_QCOW2_FLAG" in T.macros(a)]
+    rep.ob("C19.g", site(mn, "qcow2-to-raw conversion starts from an empty file"), bool(alt),
+           "`o_flags |= O_TRUNC` is reached for a qcow2 source: alternatives testing E2IMAGE_IS_QCOW2_FLAG: %s" % alt[:2])
+
     # ------------------------------------------------------------------ C19.h recycled buffers are cleared over their whole written length
     # L2 tables, the refcount block and the header buffer are written to the image as whole clusters/blocks and then
     # reused; a clear that is shorter than the write leaves entries of the previous use in the next cluster written.
@@ -365,6 +386,17 @@ def run(world, rep, tier, only=None):
     for i, (f, n, key, sh, acc) in enumerate(agree):
         rep.ob("C19.h", site(f, "clear of %s covers what is written#%d" % ("/".join(key[-2:]), i)), sh in acc,
                "memset length %s; the buffer is written/allocated with %s" % (sh, acc))
+
+    # ------------------------------------------------------------------ C19.i a partial transfer is continued with what is left
+    # write() may take fewer bytes than it was given.  The copy loops go on from where it stopped: the pointer moves
+    # by the count returned, so the length of the next call has to shrink with it - the original length again
+    # would hand write() bytes beyond the buffer and put them into the image after the cluster.
+    ptr = partial_transfer_retries(prog.functions())
+    rep.floor("C19.i loops continuing a partial read/write", len(ptr), 2)
+    for i, (f, n, pv, cnt, ok) in enumerate(ptr):
+        rep.ob("C19.i", site(f, "continued transfer asks for the remaining count#%d" % i), ok,
+               "`%s` (line %d): %s advances by the result, and so does what the count `%s` is made of" %
+               (n.text()[:40], n.line, pv, T.pp(cnt)[:20]))
 
     # ------------------------------------------------------------------ C19.w offset width
     fns = [f for f in prog.functions() if f.file in (E2I, QC, "lib/ext2fs/imager.c")]
